@@ -257,7 +257,14 @@ def execute(node, step, check_rows=False, check_unrelated=True):
                 pre_raw[t] = O.raw_table_image(t, 'default')
     if check_rows:
         tr.pre_rows = O.row_dump('default')
-    res = D.d1(R.load_sig(node.sig), [step])
+    D.LEGACY_LABELS.clear()
+    for app in node.spec['apps']:
+        if app.get('package'):
+            D.LEGACY_LABELS[app['label']] = app['package']
+    try:
+        res = D.d1(R.load_sig(node.sig), [step])
+    finally:
+        D.LEGACY_LABELS.clear()
     tr.res = res
     if not res.ok:
         if res.exc_type in D.REFUSALS and res.stage == 'generate':
